@@ -273,6 +273,9 @@ func ExpectPanic() { cur.res.ExpectPan = true }
 
 func Freeze(x any) {}
 
+// Thaw exempts the object x points to (its own fields only) from an earlier Freeze.
+func Thaw(x any) {}
+
 func Symbolic() bool { return false }
 
 func Ite[T any](c bool, a, b T) T {
